@@ -2049,7 +2049,250 @@ class C07(Prop):
                 'nontrivial': is_nontrivial(line, k, i)}
 
 
-PROPS = {p.name: p for p in [C01(), ALL(), C04(), C02(), C03(), C05(), C08(), C15(), C18(), C06(), C17(), C20(), C11(), C12(), C13(), C14(), C09(), C19(), C07()]}
+# ------------------------------------------------------------------------------------------------
+# C10: input representations
+
+def _inputs_worker(args):
+    import subprocess, vcheck as vc
+    lines = args
+    text = '\n'.join(lines) + '\n'
+    pi = subprocess.run([os.path.join(vc.HBIN_DIR, 'h_inputs')], input=text, stdout=subprocess.PIPE, stderr=subprocess.PIPE, text=True,
+                        timeout=1800, preexec_fn=vc.limit_mem)
+    pm = subprocess.run([vc.DRIVER], input=''.join(l + '\n' for l in lines if l.startswith('IN ')), stdout=subprocess.PIPE,
+                        stderr=subprocess.PIPE, text=True, timeout=1800)
+    return pi.returncode, pi.stdout, pi.stderr[-300:], pm.returncode, pm.stdout
+
+
+C10_KINDS = ['slice', 'str', 'array', 'stream', 'bstream', 'mapped1', 'mstream3', 'iomap', 'wctx', 'mspan']
+C10_SLICEABLE = ('slice', 'str', 'array', 'wctx')
+_ANYSPAN = _re.compile(r'\((sp|sl) (\d+) (\d+)\)|\{(\d+)-(\d+);|@(\d+)-(\d+)')
+
+
+def c10_normalise(kind, toks, obs):
+    """re-base every span of an observation to token indices (the documented re-basing of each representation)"""
+    if kind in ('slice', 'array', 'stream', 'bstream', 'wctx'):
+        pt = lambda x: x
+    elif kind == 'mspan':
+        pt = lambda x: x - 1000
+    elif kind == 'str':
+        offs = offsets('str', toks)
+        back = {o: i for i, o in enumerate(offs)}
+        pt = lambda x: back.get(x, ('?', x))
+    elif kind == 'iomap':
+        return None        # spans are a function of the byte values, not of positions: compared through the model only
+    else:
+        gap = int(kind[-1])
+        back = {}
+        for i in range(len(toks) + 1):
+            back[i * (gap + 2) + gap] = i                   # start of token i (or the end-of-input span)
+        for i in range(len(toks)):
+            back.setdefault(i * (gap + 2) + gap + 2, i + 1)   # end of token i = index i+1
+        pt = lambda x: back.get(x, ('?', x))
+
+    def rep(m):
+        if m.group(1):
+            return f'({m.group(1)} {pt(int(m.group(2)))} {pt(int(m.group(3)))})'
+        if m.group(4) is not None:
+            return '{' + f'{pt(int(m.group(4)))}-{pt(int(m.group(5)))};'
+        return f'@{pt(int(m.group(6)))}-{pt(int(m.group(7)))}'
+    return _ANYSPAN.sub(rep, obs)
+
+
+class C10(Prop):
+    name = 'C10'; module = 'C10'; claimed = True
+    title = 'the result does not depend on how the input is represented'
+    bins = ['h_slice_rich', 'h_str_rich', 'h_stream_rich', 'h_mapped_rich', 'h_mstream_rich', 'h_kinds_rich', 'h_inputs']
+    rule = ('(1) C01/C02/recovery-class grammars, each on the same token sequences supplied as &[T], &str, &[T;N], Stream over a counting '
+            'lower-bound-0 iterator, boxed Stream, Input::map over a slice and over a Stream (gapped spans), Input::map over an IoInput, '
+            'with_context, map_span: full results compared after the documented span re-basing; (2) inputs of 500-1300 tokens with '
+            'grammars that backtrack across the 512-token batch boundary, incl. inputs accepted at exactly 512 tokens and their one-token '
+            'extensions; iterator pulls checked (each once, in order); (3) the Input trait of every implementation driven directly on '
+            'seeded schedules of next() calls on saved cursors (short and >512-token inputs) and compared with the cursor-machine models; '
+            '(4) Graphemes input vs unicode-segmentation on CR LF / combining / ZWJ / regional-indicator strings; '
+            'non-trivial = non-empty input')
+    level_text = ('theorems: for every schedule of next() calls on saved cursors Stream, IoInput, IterInput and Input::map over any of them '
+                  'return what indexing the token list returns (so the parser core, written over a token list, applies to each); a Stream '
+                  'pulls each item once and in order; span disciplines as in C07; the real implementations compared with these models on '
+                  'schedules, and whole parse results compared across ten representations')
+
+    def cases(self, tier, seed):
+        rng = random.Random(seed)
+        lines = []
+        n = 0
+        by = gen.enum_by_size(3, gen.C01_LEAVES, gen.C01_UNARIES, gen.C01_BINARIES, gen.C01_TERNARIES)
+        base = [g for s_ in (1, 2, 3) for g in by[s_]]
+        rng.shuffle(base)
+        base = base[:350 if tier == 'quick' else 3000]
+        its = gen.c02_iterators(gen.C02_ITEMS[:5], gen.C02_SEPS[:3], [(0, None), (1, 2), (2, None)])
+        rng.shuffle(its)
+        for it in its[:25 if tier == 'quick' else 250]:
+            base.extend(gen.c02_consumers(it)[:6])
+        for g in list(base[:40]):
+            for w in gen.RECOVERIES[:3]:
+                base.extend(gen.insert_at_nodes(g, w)[:1])
+        inp = inputs_all(4 if tier == 'quick' else 5, [gen.A, gen.B, gen.EA]) + ' ' + inputs_all(4, [gen.A, gen.COMMA])
+        for g in base:
+            sl = 'toslice' in gen.ops_of(g)
+            for kd in C10_KINDS:
+                if sl and kd not in C10_SLICEABLE:
+                    continue
+                lines.append(case_line(f'v{n}_{kd}', g, inp, kind=kd))
+            n += 1
+        # (2) long inputs: backtracking across the 512-token batch boundary of Stream
+        pair = ('or', ('just', [gen.A, gen.B]), ('just', [gen.A]))
+        longg = [
+            ('collect', 'count', ('rep', pair, 0, None)),
+            ('then', ('collect', 'count', ('rep', ('just', [gen.A]), 0, None)), ('ornot', ('just', [gen.B]))),
+            ('then', ('rewind', ('collect', 'count', ('rep', ('any',), 0, None))), ('collect', 'count', ('rep', ('oneof', [gen.A, gen.B]), 0, None))),
+            ('or', ('then', ('collect', 'count', ('rep', ('just', [gen.A]), 0, None)), ('just', [gen.COMMA])), ('collect', 'count', ('rep', ('any',), 0, None))),
+            ('collect', 'count', ('sep', ('just', [gen.A]), ('just', [gen.B]), 0, None, False, True)),
+            ('mwspan', ('then', ('collect', 'count', ('rep', ('just', [gen.A]), 0, 512)), ('tospan', ('ornot', ('just', [gen.B]))))),
+            ('collect', 'count', ('rep', ('just', [gen.A]), 0, 512)),
+        ]
+        longs = []
+        for L in (510, 511, 512, 513, 1023, 1024, 1025, 1300):
+            longs.append([gen.A] * L)
+            longs.append([gen.A] * (L - 1) + [gen.B])
+            longs.append([gen.A, gen.B] * (L // 2) + [gen.A] * (L % 2))
+        longs.append([gen.A] * 512 + [gen.COMMA])
+        linp = ' '.join(inputs_lit(t) for t in longs)
+        for g in longg:
+            for kd in ('slice', 'stream', 'bstream', 'mstream1'):
+                lines.append(case_line(f'v{n}_{kd}', g, linp, kind=kd, fuel=6000))
+            n += 1
+        # (3) the Input trait driven directly
+        small = inputs_all(3, [gen.A, gen.EA]) + ' ' + inputs_lit([gen.A, gen.B, gen.EA, gen.A, gen.B, gen.A])
+        for kd in ('slice', 'str', 'stream', 'bstream', 'io', 'iomap', 'mapped', 'iter'):
+            for _ in range(12 if tier == 'quick' else 120):
+                ln = rng.randint(5, 40)
+                sched = [rng.randint(0, 50) if rng.random() < 0.5 else i for i in range(ln)]
+                lines.append(f'IN i{n} {kd} S {ln} ' + ' '.join(map(str, sched)) + ' I ' + small)
+                n += 1
+        long_in = ' '.join(inputs_lit([rng.choice([gen.A, gen.B]) for _ in range(L)]) for L in (600, 1100))
+        for kd in ('stream', 'bstream', 'io', 'iomap', 'iter'):
+            for _ in range(3 if tier == 'quick' else 20):
+                ln = 1200
+                sched = []
+                for i in range(ln):
+                    r = rng.random()
+                    sched.append(i if r < 0.9 else rng.randint(0, i) if r < 0.97 else 0)
+                lines.append(f'IN i{n} {kd} S {ln} ' + ' '.join(map(str, sched)) + ' I ' + long_in)
+                n += 1
+        # (4) Graphemes
+        galpha = [97, 13, 10, 0x301, 0x200D, 0x1F468, 0x1F1FA, 0x1F1F8, 0x1100, 0x1161, 233]
+        lines.append(f'GR g{n} I ' + inputs_all(3 if tier == 'quick' else 4, galpha))
+        return lines
+
+    def group_of(self, line):
+        t = line.split(' ', 2)
+        if t[0] in ('IN', 'GR'):
+            return t[1]
+        return t[0].rpartition('_')[0]
+
+    def custom_run(self, lines, tier, seed, jobs):
+        import vcheck, multiprocessing
+        case_lines = [l for l in lines if not l.startswith(('IN ', 'GR '))]
+        other = [l for l in lines if l.startswith(('IN ', 'GR '))]
+        tot, fails = vcheck.run_cases(self.name, case_lines, jobs=jobs, timeout=900 if tier == 'quick' else 3600)
+        with multiprocessing.Pool(jobs) as pool:
+            results = pool.map(_inputs_worker, [[l] for l in other])
+        for (line,), (rci, oi, ei, rcm, om) in zip([[l] for l in other], results):
+            if rci != 0 or (rcm != 0 and line.startswith('IN ')):
+                tot['crash'] = f'h_inputs rc={rci} ({ei}) driver rc={rcm}'
+            di = dict(l.split(' M', 1) for l in oi.split('\n') if ' M' in l)
+            dm = dict(l.split(' M', 1) for l in om.split('\n') if ' M' in l)
+            cid = line.split(' ', 2)[1]
+            inputs = expand_inputs(line.partition(' I ')[2].split())
+            for k, toks in enumerate(inputs):
+                key = f'{cid}.{k}'
+                a = di.get(key)
+                tot['pairs'] += 1
+                if toks:
+                    tot['nontrivial'] += 1
+                if a is None:
+                    fails.append(('missing', None, 0, f'{key}: no observation for {line[:60]}'))
+                    continue
+                if line.startswith('GR '):
+                    oc = 'graphemes'
+                    tot['outcomes'][oc] = tot['outcomes'].get(oc, 0) + 1
+                    if not a.strip().endswith('same=1'):
+                        tot['pred_fail'] += 1
+                        self.fail(tot, fails, 'pred', None, 0, f'GRAPHEMES on {toks} ({"".join(chr(c) for c in toks)!r}): cluster lengths yielded by the input / reference / Graphemes::iter:{a}')
+                    continue
+                kind = line.split(' ')[2]
+                oc = 'sched:' + kind
+                tot['outcomes'][oc] = tot['outcomes'].get(oc, 0) + 1
+                # predicate (no model needed): at a cursor of location i the token returned is toks[i]; a stream pulls in order
+                why = []
+                body, _, tail = a.partition(' ;')
+                for ent in body.split():
+                    loc, _, t = ent.partition(':')
+                    want = toks[int(loc)] if int(loc) < len(toks) else None
+                    if kind in ('io', 'iomap') and want is not None:
+                        want &= 0xFF
+                    if (t == '-' and want is not None) or (t != '-' and (want is None or int(t) != want)):
+                        why.append(f'at location {loc} the input returned {t}, the token sequence has {want}')
+                        break
+                if 'inorder=0' in tail:
+                    why.append('the Stream pulled items from its iterator out of order or more than once')
+                b = dm.get(key)
+                if why:
+                    tot['pred_fail'] += 1
+                    self.fail(tot, fails, 'pred', None, 0, f'INPUT {kind} schedule {line.partition(" I ")[0][:120]}... input #{k}: ' + '; '.join(why))
+                elif a != b:
+                    tot['corr_disagree'] += 1
+                    self.fail(tot, fails, 'corr', None, 0, f'INPUT {kind} input #{k}: impl{a[:200]} || model{(b or "")[:200]}')
+        return tot, fails
+
+    def check_chunk(self, by_id, impl, model, stats, fails):
+        groups = {}
+        for key in model:
+            if key == '__bad__':
+                continue
+            cid, _, k = key.rpartition('.')
+            base, _, kind = cid.rpartition('_')
+            groups.setdefault((base, int(k)), {})[kind] = cid
+        for (base, k), kinds in groups.items():
+            ref_cid = kinds.get('slice')
+            if ref_cid is None:
+                continue
+            line = by_id.get(ref_cid)
+            toks = input_of(line, k)
+            ref = impl.get(f'{ref_cid}.{k}', {}).get('M')
+            why = []
+            corr_bad = None
+            for kind, cid in kinds.items():
+                a = impl.get(f'{cid}.{k}', {}).get('M')
+                m = model.get(f'{cid}.{k}', {}).get('M')
+                stats['pairs'] += 1
+                if toks:
+                    stats['nontrivial'] += 1
+                if a is None or ref is None:
+                    fails.append(('missing', by_id.get(cid), k, 'no implementation observation'))
+                    continue
+                if a.startswith('SKIP'):
+                    continue
+                oc = kind + ':' + a.split(' ')[0] + ('+' if a.startswith('R ok') else '-')
+                stats['outcomes'][oc] = stats['outcomes'].get(oc, 0) + 1
+                if 'PULLS-OUT-OF-ORDER' in a:
+                    why.append(f'{kind}: the Stream pulled items from its iterator out of order or more than once')
+                na = c10_normalise(kind, toks, a.replace(' ; PULLS-OUT-OF-ORDER-OR-REPEATED', ''))
+                if na is not None and na != ref:
+                    why.append(f'{kind} differs from &[T] after re-basing spans: {a} (re-based: {na})')
+                if (na if kind == 'mspan' else a.replace(' ; PULLS-OUT-OF-ORDER-OR-REPEATED', '')) != m and corr_bad is None:
+                    corr_bad = (by_id.get(cid), f'{kind}: impl: {a} || model: {m}')
+            if why:
+                stats['pred_fail'] += 1
+                self.fail(stats, fails, 'pred', line, k, '; '.join(why[:2]) + f' || &[T]: {ref}')
+            elif corr_bad:
+                stats['corr_disagree'] += 1
+                self.fail(stats, fails, 'corr', corr_bad[0], k, corr_bad[1])
+            elif len(stats['samples']) < 2 and len(toks) >= 3 and ref and ref.startswith('R none'):
+                stats['samples'].append({'case': grammar_of(line), 'input': toks, 'slice': ref,
+                                         'str': impl.get(f'{kinds.get("str")}.{k}', {}).get('M')})
+
+
+PROPS = {p.name: p for p in [C01(), ALL(), C04(), C02(), C03(), C05(), C08(), C15(), C18(), C06(), C17(), C20(), C11(), C12(), C13(), C14(), C09(), C19(), C07(), C10()]}
 for _s in ['c01', 'c02', 'emit', 'rec', 'deco', 'ctx', 'ek', 'state']:
     PROPS['ALL_' + _s] = ALL([_s])
     PROPS['ALL_' + _s].name = 'ALL_' + _s
